@@ -394,6 +394,227 @@ def main():
                     continue
                 entries.append({"kind": "localStatic", "scope": rel, "name": "%s|%s" % (name, m.group(2)), "funcs": [name],
                                 "where": "%s:%d" % (rel, t.count("\n", 0, a + m.start()) + 1)})
+    # 1b. guarded writes: in a class with `mutable` members, which const member functions reach a function that MUTATES one of
+    #     them, and under which condition.  D = functions that mutate a mutable member directly (assignment, ++/--, or a call of a
+    #     method that is not a known read accessor); M = D closed under UNGUARDED calls inside the class.  For every const member
+    #     function outside M (of the class, or of another class defined in the same files, e.g. a nested walker) each call of a
+    #     function of M is an entry, with the conjunction of the enclosing `if` conditions as a parsed boolean formula; a const
+    #     function of M that nobody in these files calls is an entry with the condition `true` (an unguarded const mutator).
+    READ_ACCESSORS = {"size", "empty", "begin", "end", "find", "length", "c_str", "getNode", "getMemoryManager", "getLength", "get",
+                      "item", "front", "back", "rbegin", "rend", "data", "capacity", "ownsObject", "getBlockCount", "count", "at",
+                      "getExecutionContext", "getURI", "getType"}
+    guard_entries = []
+
+    def split_guards(body):
+        """-> list of (callee text position, name, object-or-None, [guards]) for every call `name(` / `obj->name(` / `obj.name(`"""
+        res = []
+        stack = []          # entries: (kind, cond) kind in {"block","stmt"}
+        i, n = 0, len(body)
+        pending = None      # condition of an `if (...)` whose statement has not started yet
+        last_if_stack = []
+        while i < n:
+            m = re.compile(r"\b(else\s+if|if|else|while|for|switch|catch)\b").match(body, i)
+            if m and (i == 0 or not (body[i - 1].isalnum() or body[i - 1] == "_")):
+                kw = re.sub(r"\s+", " ", m.group(1))
+                j = m.end()
+                cond = None
+                if kw != "else":
+                    while j < n and body[j] in " \t\r\n":
+                        j += 1
+                    if j < n and body[j] == "(":
+                        d, k = 0, j
+                        while k < n:
+                            if body[k] == "(":
+                                d += 1
+                            elif body[k] == ")":
+                                d -= 1
+                                if d == 0:
+                                    break
+                            k += 1
+                        cond = " ".join(body[j + 1:k].split())
+                        # calls inside the condition itself are evaluated under the outer guards
+                        for cm in re.finditer(r"(?:\b(\w+)\s*(?:->|\.)\s*)?\b([A-Za-z_]\w*)\s*\(", body[j:k]):
+                            res.append((j + cm.start(), cm.group(2), cm.group(1), [g for _, g in stack if g]))
+                        j = k + 1
+                g = cond if kw in ("if", "else if") else ("?" + kw)
+                k = j
+                while k < n and body[k] in " \t\r\n":
+                    k += 1
+                if k < n and body[k] == "{":
+                    stack.append(("block", g))
+                    i = k + 1
+                else:
+                    stack.append(("stmt", g))
+                    i = j
+                continue
+            c = body[i]
+            if c == "{":
+                stack.append(("block", None))
+            elif c == "}":
+                while stack and stack[-1][0] == "stmt":
+                    stack.pop()
+                if stack:
+                    stack.pop()
+                while stack and stack[-1][0] == "stmt":
+                    stack.pop()
+            elif c == ";":
+                while stack and stack[-1][0] == "stmt":
+                    stack.pop()
+            else:
+                cm = re.compile(r"(?:\b(\w+)\s*(?:->|\.)\s*)?\b([A-Za-z_]\w*)\s*\(").match(body, i)
+                if cm and (i == 0 or not (body[i - 1].isalnum() or body[i - 1] in "_.>")):
+                    res.append((i, cm.group(2), cm.group(1), [g for _, g in stack if g]))
+                    i = cm.end() - 1      # stay before '(' so that nested calls in the arguments are seen too
+                    i += 1
+                    continue
+            i += 1
+        return res
+
+    def parse_cond(text, varnames):
+        """C++ boolean expression -> nested tuples ("var", i, bool) | ("and", a, b) | ("or", a, b) | ("not", a) | ("tt",).
+        Anything that is not `flag`, `!flag`, `flag == true/false`, `flag != true/false` becomes an opaque variable of its own."""
+        toks = re.findall(r"&&|\|\||==|!=|[()!]|[^\s()!&|=]+|[&|=]", text)
+        pos = [0]
+
+        def var(name, val=True):
+            if name not in varnames:
+                varnames.append(name)
+            return ("var", varnames.index(name), val)
+
+        def peek():
+            return toks[pos[0]] if pos[0] < len(toks) else None
+
+        def p_or():
+            a = p_and()
+            while peek() == "||":
+                pos[0] += 1
+                a = ("or", a, p_and())
+            return a
+
+        def p_and():
+            a = p_not()
+            while peek() == "&&":
+                pos[0] += 1
+                a = ("and", a, p_not())
+            return a
+
+        def p_not():
+            if peek() == "!":
+                pos[0] += 1
+                return ("not", p_not())
+            return p_atom()
+
+        def p_atom():
+            t = peek()
+            if t == "(":
+                # a parenthesised boolean expression, unless it turns out to be part of a larger opaque atom
+                save = pos[0]
+                pos[0] += 1
+                a = p_or()
+                if peek() == ")":
+                    pos[0] += 1
+                    if peek() in (None, "&&", "||", ")"):
+                        return a
+                pos[0] = save
+            # opaque / flag atom: tokens up to the next top-level && || or unmatched )
+            d, start = 0, pos[0]
+            while pos[0] < len(toks):
+                t = toks[pos[0]]
+                if t == "(":
+                    d += 1
+                elif t == ")":
+                    if d == 0:
+                        break
+                    d -= 1
+                elif t in ("&&", "||") and d == 0:
+                    break
+                pos[0] += 1
+            atom = toks[start:pos[0]]
+            if len(atom) == 1 and re.fullmatch(r"m_\w+", atom[0]):
+                return var(atom[0], True)
+            if len(atom) == 3 and re.fullmatch(r"m_\w+", atom[0]) and atom[1] in ("==", "!=") and atom[2] in ("true", "false"):
+                return var(atom[0], (atom[2] == "true") == (atom[1] == "=="))
+            if not atom:
+                return ("tt",)
+            return var(" ".join(atom), True)
+        r0 = p_or()
+        return r0 if pos[0] >= len(toks) else var(text, True)
+
+    for c in sorted(reach):
+        cl = classes[c]
+        muts = [mem["name"] for mem in cl["members"] if mem["mutable"] and not mem["static"]]
+        if not muts:
+            continue
+        h = os.path.join(SRC, cl["file"])
+        fns = {}          # short name -> {"const": bool, "bodies": [text], "owner": class}
+        for f in (h, re.sub(r"\.hpp$", ".cpp", h)):
+            t = texts.get(f)
+            if t is None:
+                continue
+            for name, a0, b0 in spans[f]:
+                segs = name.split("::")
+                owner = segs[-2] if len(segs) >= 2 else None
+                if owner is None:
+                    continue
+                ob = t.find("{", a0)
+                key = (owner, segs[-1])
+                e0 = fns.setdefault(key, {"const": True, "bodies": [], "ctor": segs[-1] == owner or segs[-1].startswith("~")})
+                e0["const"] = e0["const"] and bool(re.search(r"\)\s*const\b", t[a0:ob]))
+                e0["bodies"].append(t[ob + 1:b0 - 1])
+        own = {k[1] for k in fns if k[0] == c}
+        mutre = re.compile(r"\b(%s)\s*(=(?!=)|\+=|-=|\+\+|--|(?:\.|->)\s*([A-Za-z_]\w*)\s*\()" % "|".join(re.escape(x) for x in muts))
+        D = set()
+        for (owner, fn), info in fns.items():
+            if owner != c or info["ctor"]:
+                continue
+            for b0 in info["bodies"]:
+                for m in mutre.finditer(b0):
+                    if m.group(3) is None or m.group(3) not in READ_ACCESSORS:
+                        D.add(fn)
+        calls = {k: [x for b0 in info["bodies"] for x in split_guards(b0)] for k, info in fns.items()}
+        M = set(D)
+        changed = True
+        while changed:
+            changed = False
+            for (owner, fn), info in fns.items():
+                if owner != c or fn in M or info["ctor"]:
+                    continue
+                for _, callee, obj, guards in calls[(owner, fn)]:
+                    if callee in M and obj in (None, "this") and not guards:
+                        M.add(fn)
+                        changed = True
+                        break
+        called = set()
+        for (owner, fn), info in sorted(fns.items()):
+            n_site = 0
+            for _, callee, obj, guards in calls[(owner, fn)]:
+                if callee not in M or callee not in own:
+                    continue
+                if owner == c and obj not in (None, "this"):
+                    continue
+                if owner != c and obj is None:
+                    continue
+                called.add(callee)
+                if owner == c and fn in M:
+                    continue            # an unguarded mutator itself: its own callers are looked at
+                if not info["const"] or info["ctor"]:
+                    continue            # non-const: the owner's build / rebuild phase, not reachable through const access
+                n_site += 1
+                varnames = []
+                cond = ("tt",)
+                for gtxt in guards:
+                    g1 = parse_cond(gtxt, varnames) if not gtxt.startswith("?") else ("var", (varnames.append(gtxt) or len(varnames) - 1), True)
+                    cond = g1 if cond == ("tt",) else ("and", cond, g1)
+                guard_entries.append({"kind": "guardedWrite", "scope": c, "name": "%s%s->%s#%d" % ("" if owner == c else owner + "::", fn, callee, n_site),
+                                      "funcs": ["%s::%s" % (owner, fn), "%s::%s" % (c, callee)], "where": cl["file"],
+                                      "vars": varnames, "cond": cond, "condtext": " && ".join(guards) or "true"})
+        for fn in sorted(M):
+            info = fns.get((c, fn))
+            if info and info["const"] and not info["ctor"] and fn not in called:
+                guard_entries.append({"kind": "guardedWrite", "scope": c, "name": "%s#unguarded" % fn, "funcs": ["%s::%s" % (c, fn)],
+                                      "where": cl["file"], "vars": [], "cond": ("tt",), "condtext": "true"})
+    entries += guard_entries
+
     # 2b. non-const member functions invoked through pointer members from const member functions of reachable
     #     classes (`const` is shallow: `m_p->mutate()` compiles in a const method when m_p is `T*`)
     def method_constness(cls, name, seen=None):
@@ -670,7 +891,8 @@ def main():
     callgraph = {"roots": sorted(roots), "reachable": sorted(reachable_fn), "edges": edges}
 
     # sanity: constructs that must be found, or the parser no longer understands the source
-    need = [("constPathCall", "XercesDocumentWrapper", "getPooledString|m_stringPool->get"),
+    need = [("guardedWrite", "XercesDocumentWrapper", "mapNode->createWrapperNode#1"),
+            ("constPathCall", "XercesDocumentWrapper", "getPooledString|m_stringPool->get"),
             ("mutableMember", "XercesDocumentWrapper", "m_nodeMap"), ("mutableMember", "XercesLiaisonXalanDOMStringPool", "m_mutex")]
     for k, s, nme in need:
         if not any(e["kind"] == k and e["scope"] == s and e["name"] == nme for e in entries):
@@ -700,10 +922,29 @@ def main():
             int.from_bytes(("%s|%s|%s" % (e["kind"], e["scope"], e["name"])).encode("utf-8"), "big"),
             e["kind"], q(e["scope"]), q(e["name"]), ", ".join(q(x) for x in e["funcs"]), "," if i + 1 < len(entries) else ""))
     lines += ["]", ""]
+
+    def lean_cond(cnd):
+        if cnd[0] == "tt":
+            return ".tt"
+        if cnd[0] == "var":
+            return "(.var %d %s)" % (cnd[1], "true" if cnd[2] else "false")
+        if cnd[0] == "not":
+            return "(.not %s)" % lean_cond(cnd[1])
+        return "(.%s %s %s)" % (cnd[0], lean_cond(cnd[1]), lean_cond(cnd[2]))
+    lines += ["/-- the guardedWrite entries with their guard condition as a formula: `vars[i]` is the C++ text of variable `i`",
+              "(a bool member, or an opaque sub-expression); the formula is the conjunction of the enclosing `if` conditions of the call -/",
+              "def guards : List GuardEntry := ["]
+    ge = [e for e in entries if e["kind"] == "guardedWrite"]
+    for i, e in enumerate(ge):
+        lines.append("  -- %s|%s : %s\n  { key := %d, vars := [%s],\n    cond := %s }%s" % (
+            e["scope"], e["name"], e["condtext"].replace("\n", " "),
+            int.from_bytes(("%s|%s|%s" % (e["kind"], e["scope"], e["name"])).encode("utf-8"), "big"),
+            ", ".join(q(v) for v in e["vars"]), lean_cond(e["cond"]), "," if i + 1 < len(ge) else ""))
+    lines += ["]", ""]
     # the hand-kept classification (translate/c07_allow.tsv) with its keys as numerals
     GUARDS = {"perExecution", "constructionOnly", "wrapperPrebuilt", "pooledStringMutex", "isMutex", "initTerminate",
               "installOnly", "neverWritten", "castNoWrite", "ownerOnly", "lazyListHead", "headForced", "noConstLookup",
-              "emptyChecked", "listConstNoAlloc", "noConstCaller", "readOnlyUse"}
+              "emptyChecked", "listConstNoAlloc", "noConstCaller", "readOnlyUse", "mappingPhaseOnly"}
     allow_rows, aliases = [], []
     for ln, line in enumerate(open(os.path.join(HERE, "c07_allow.tsv"), encoding="utf-8"), 1):
         line = line.rstrip("\n")
